@@ -116,11 +116,11 @@ def gen_c02_dead_peers(r):
 def gen_c02_all_incoming(r):
     """The tracker knows nobody; two or three seeders with complementary pieces connect in."""
     g, n = gen_geometry(r)
-    k = r.randint(2, 3)
+    k = 3
     haves = [[False] * n for _ in range(k)]
     for i in range(n):
         haves[r.randrange(k)][i] = True
-    peers = [dict(port=7001 + j, id="-FK%04d-abcdefghijkl" % j, incoming=True, have=haves[j], seed=r.getrandbits(32), chunk=0, latency_ms=r.choice([0, 5]), unchoke_delay_ms=0, connect_delay_ms=300 + 150 * j) for j in range(k)]
+    peers = [dict(port=7001 + j, id="-FK%04d-abcdefghijkl" % j, incoming=True, have=haves[j], seed=r.getrandbits(32), chunk=0, latency_ms=r.choice([0, 5]), unchoke_delay_ms=0, connect_delay_ms=300 + r.choice([0, 20, 150]) * j) for j in range(k)]
     g.update(peers=peers, tracker_faults=[], tracker_port=8000, timeout_s=90, stall_s=15)
     return g
 
@@ -184,7 +184,7 @@ def e2e(cid, tier, seed, jobs, scale, outdir, m, log, asan=False):
     gen = GENS[cid]
     scs = [gen(r) for _ in range(n)]
     if cid == "C02" and not asan:
-        scs += [gen_c02_dead_peers(r), gen_c02_all_incoming(r), gen_c02_all_incoming(r)]
+        scs += [gen_c02_dead_peers(r)] + [gen_c02_all_incoming(r) for _ in range(5)]
         if tier == "thorough":
             scs += [gen_c02_dead_peers(r) for _ in range(10)] + [gen_c02_all_incoming(r) for _ in range(20)]
     if cid == "C19" and not asan:
@@ -252,9 +252,9 @@ def e2e_asan(cid, tier, seed, jobs, scale, outdir, m, log):
 
 MIRI_PLAN = {
     # check: (parts, scale) — sized so that one shard interprets a few dozen cases / 1-3 scenarios
-    "C01": ("", 0.004), "C02": ("", 0.006), "C03": ("random", 0.05), "C05": ("", 0.01), "C06": ("decoder", 0.01),
+    "C01": ("", 0.002), "C02": ("", 0.003), "C03": ("random", 0.05), "C05": ("", 0.01), "C06": ("decoder", 0.01),
     "C07": ("", 0.001), "C08": ("", 0.004), "C09": ("", 0.006), "C10": ("", 0.006), "C11": ("", 0.006),
-    "C12": ("", 0.003), "C13": ("random", 0.004), "C14": ("direct", 0.003), "C15": ("", 0.002),
+    "C12": ("", 0.0015), "C13": ("random", 0.004), "C14": ("direct", 0.003), "C15": ("", 0.002),
     "C16": ("mutations,extremes", 0.01), "C17": ("docs,totality", 0.002), "C19": ("replies", 0.003), "C20": ("", 0.002),
 }
 
